@@ -302,7 +302,16 @@ impl Prop for C03 {
                     }
                     _ => {
                         stats.hit("delete_insert_where");
-                        (Some(gen_qts(rng, &u, nvars, true, malformed)), Some(gen_qts(rng, &u, nvars, true, true)))
+                        let d = gen_qts(rng, &u, nvars, true, malformed);
+                        let mut i = gen_qts(rng, &u, nvars, true, true);
+                        if rng.chance(2, 5) {
+                            // the two templates overlap: the same quad is deleted and re-inserted
+                            stats.hit("templates_overlap");
+                            let k = rng.below(d.len());
+                            let pos = rng.below(i.len() + 1);
+                            i.insert(pos, d[k].clone());
+                        }
+                        (Some(d), Some(i))
                     }
                 };
                 Upd::Modify(d, i, w)
